@@ -402,9 +402,21 @@ def run_history(ctx, world, hist, tofu=True, label="exhaustive"):
                 f = os.path.join(tmp, "imp.toml")
                 with open(f, "wb") as fh:
                     tomli_w.dump({"hosts": {"k": {"hostname": key[0], "port": key[1], "fingerprint": fp, "first_seen": "2020-01-01T00:00:00+00:00", "last_seen": "2020-01-01T00:00:00+00:00"}}}, fh)
-                admin.import_toml(Path(f), merge=True, on_conflict=lambda *a: True)
+                if len(op) > 3 and op[3] == "replace":
+                    # replace mode: afterwards the store holds exactly what the file names
+                    admin.import_toml(Path(f), merge=False, on_conflict=lambda *a: True)
+                    model.clear()
+                else:
+                    admin.import_toml(Path(f), merge=True, on_conflict=lambda *a: True)
                 model[key] = fp
                 outcomes.append("imported")
+            elif kind == "restore":
+                # export the store and import that very file again (replace or merge): every pin survives
+                f = os.path.join(tmp, "backup.toml")
+                admin.export_toml(Path(f))
+                if model:
+                    admin.import_toml(Path(f), merge=(op[1] == "merge"), on_conflict=lambda *a: True)
+                outcomes.append("restored")
             # ---- table vs model
             ctx.count("monitor", "table_comparisons")
             got = {(r[0], r[1]): r[2] for r in dump(dbp)}
@@ -413,11 +425,12 @@ def run_history(ctx, world, hist, tofu=True, label="exhaustive"):
                 exp_table = {k2: v for k2, v in model.items()}  # admin ops only
             if got != exp_table:
                 failed = kind in ("get", "upload", "redirect") and outcomes[-1].split(":")[0] in ("changed", "refused-unparsable")
-                clause = "pin-mutated" if failed else ("first-use-not-pinned" if any(k2 not in got for k2 in exp_table) else "cross-host")
+                clause = "pin-mutated" if failed else "store-differs-after-import" if kind in ("import", "restore") else ("first-use-not-pinned" if any(k2 not in got for k2 in exp_table) else "cross-host")
                 ctx.violation(f"{clause}:op={kind}", "known_hosts differs from the pin-map model after this step",
                               dict(wit, table=sorted((f"{a}:{b}", v) for (a, b), v in got.items()), model=sorted((f"{a}:{b}", v) for (a, b), v in exp_table.items())))
                 break
-            for r in dump(dbp):
+            # (an import writes the dates its file carries: not a change made behind the user's back)
+            for r in (dump(dbp) if kind not in ("import", "restore") else ()):
                 for b in before:
                     if (b[0], b[1]) == (r[0], r[1]) and b[2] == r[2] and b[3] != r[3]:
                         ctx.violation("first-seen-changed", "first_seen of an existing pin changed", wit)
@@ -432,10 +445,12 @@ ALPHABET = [
     ("swap", "A", "ec2"), ("swap", "A", "tbool"), ("swap", "B", "rsa"), ("trust", "t1"), ("revoke", "t1"), ("import", "t3", "ed"),
     ("getfail", "t1", "close-before-header"),
     ("import-bad", "t1", "ec2", "replace"),
+    ("restore", "replace"),
 ]
 EXTRA = [("get", "t4"), ("upload", "t3"), ("swap", "A", "ed"), ("swap", "A", "rsa"), ("swap", "B", "tver"), ("swap", "A", "ec1"), ("swap", "B", "ec1"), ("clear",),
          ("redirect", "t3", "t4"), ("upload", "t2"), ("import", "t1", "ec2"), ("revoke", "t3"), ("trust", "t3"),
          ("import-bad", "t1", "ec2", "merge"), ("import-bad", "t3", "rsa", "replace"),
+         ("restore", "merge"), ("import", "t1", "ec1", "replace"), ("import", "t2", "rsa", "replace"),
          ("getfail", "t1", "garbage-header"), ("getfail", "t3", "unknown-charset"), ("getfail", "t2", "reset-mid-body"), ("getfail", "t3", "close-before-header")]
 
 
